@@ -9,10 +9,11 @@
 (*   v    - the room version (selects the algorithm and the auth rules)    *)
 (*                                                                         *)
 (* Event record: [type, sender, skey, membership, plu, jr, prev, auth,     *)
-(*                depth, ts, idr, sha, rejected, addl]                           *)
+(*                depth, ts, idr, sha, rejected, addl, pud]                *)
 (*   type in {"create","member","pl","jr","topic"}; skey = target user of  *)
-(*   a member event, "" otherwise; plu = the users map of a power-levels    *)
-(*   content (thresholds keep their defaults in room models);              *)
+(*   a member event, "" otherwise; plu = the users map and pud = the       *)
+(*   users_default of a power-levels content (Absent = key not present;    *)
+(*   the other thresholds keep their defaults in room models);             *)
 (*   prev / auth = sets of ids; ts = timestamp rank; idr = rank of the     *)
 (*   event ID in lexicographic order; sha = rank of SHA-1(event ID).       *)
 (***************************************************************************)
@@ -20,7 +21,7 @@ EXTENDS Auth, SequencesExt
 
 KeyOf(E, e) == <<E[e].type, E[e].skey>>
 NoUsers == [u \in Users |-> Absent]
-PLCOf(E, e) == [EmptyPL EXCEPT !.users = E[e].plu]
+PLCOf(E, e) == [EmptyPL EXCEPT !.users = E[e].plu, !.users_default = E[e].pud]
 
 AllIds(Sets) == UNION {Sets[i] : i \in DOMAIN Sets}
 ForKey(E, S, k) == {e \in S : KeyOf(E, e) = k}
@@ -78,7 +79,8 @@ PowerEvents(E, C, Full, U) ==
 CreateId(E) == CHOOSE e \in DOMAIN E : E[e].type = "create"
 CreatorsOf(E) == {E[CreateId(E)].sender} \cup E[CreateId(E)].addl   \* create sender + additional_creators
 
-\* R2: the sender's power is read from the power-levels event among the event's own auth events
+\* R2: the sender's power is read from the power-levels event among the event's own auth events; it is the
+\* effective level that content gives the sender: the `users` entry, or users_default for a sender it does not list
 SenderPower(E, v, e) ==
     IF PrivilegedCreators(v) /\ E[e].sender \in CreatorsOf(E) THEN Inf
     ELSE LET pls == {a \in E[e].auth : E[a].type = "pl"} IN
